@@ -215,5 +215,70 @@ func runC38(c *Ctx) error {
 		}
 		_ = pool.Close()
 	}
+	// a pool whose proposal writes fail now and then (disk full, storage closing): a proposal that could not be kept
+	// must not be handed out, or the next call for the position makes another one
+	nfail := 60
+	if c.Thorough() {
+		nfail = 1500
+	}
+	for hi := 0; hi < nfail; hi++ {
+		pool, err := env.newPool()
+		if err != nil {
+			return err
+		}
+		fp := &c38failingPool{ProposalPool: pool}
+		lastBM := base.NewDummyBlockMap(base.NewDummyManifest(base.Height(30), prevs[0]))
+		maker := isaac.NewProposalMaker(local, hNetworkID, func(ctx context.Context, h base.Height) ([][2]util.Hash, error) {
+			return pool.OperationHashes(ctx, h, 5, nil)
+		}, fp, func() (base.BlockMap, bool, error) { return lastBM, true, nil })
+		got := map[string]map[string]bool{}
+		var toks []string
+		for st := 0; st < 4+c.Intn(8); st++ {
+			h, r, pv := 30+c.Intn(3), c.Intn(2), c.Intn(2)
+			point := base.NewPoint(base.Height(h), base.Round(uint64(r)))
+			fp.fail = c.Chance(1, 3)
+			var pr base.ProposalSignFact
+			var err error
+			kind := "m"
+			if c.Chance(1, 3) {
+				kind = "e"
+				pr, err = maker.PreferEmpty(ctx, point, prevs[pv])
+			} else {
+				pr, err = maker.Make(ctx, point, prevs[pv])
+			}
+			tok := fmt.Sprintf("%s:%d.%d.%d%s", kind, h, r, pv, map[bool]string{true: "!", false: ""}[fp.fail])
+			toks = append(toks, tok)
+			time.Sleep(2 * time.Millisecond) // a proposal made again gets another signing time
+			if err != nil || pr == nil {
+				continue
+			}
+			key := fmt.Sprintf("%d.%d.%d", h, r, pv)
+			if got[key] == nil {
+				got[key] = map[string]bool{}
+			}
+			got[key][string(pr.Signs()[0].Signature())] = true
+		}
+		c.Eval(len(toks))
+		c.Count("failing-pool-histories", "run")
+		for key, sigs := range got {
+			if len(sigs) > 1 {
+				c.Violation("C38:two-proposals-for-one-position", fmt.Sprintf("position %s got %d different signed proposals over a pool whose proposal writes fail now and then (! = the write of that call fails): %s", key, len(sigs), strings.Join(toks, " ")),
+					map[string]interface{}{"position": key, "history": toks})
+			}
+		}
+		_ = pool.Close()
+	}
 	return nil
+}
+
+type c38failingPool struct {
+	isaac.ProposalPool
+	fail bool
+}
+
+func (p *c38failingPool) SetProposal(pr base.ProposalSignFact) (bool, error) {
+	if p.fail {
+		return false, fmt.Errorf("no space left on device")
+	}
+	return p.ProposalPool.SetProposal(pr)
 }
